@@ -202,3 +202,9 @@ Lemma decmode_table_ok :
   forallb (fun m => existsb (N.eqb m) decmode_codes) decmode_all = true
   /\ forallb (fun s => existsb (N.eqb s) decstatus_codes) decstatus_all = true.
 Proof. split; vm_compute; reflexivity. Qed.
+
+(* ... and the numbers are the documented ones, variant by variant *)
+Lemma decmode_names_ok :
+  named_tables_agree decmode_named xterm_decmodes = true
+  /\ named_tables_agree decstatus_named decrpm_statuses = true.
+Proof. split; vm_compute; reflexivity. Qed.
